@@ -221,7 +221,7 @@ def reencode_taint(m):
         if meta["syn"] == "uper":
             try:
                 acc = BerAccepted(tree, bytes.fromhex(r["der"]))
-                if acc.lists_above_bound() or acc.ints_above_bound():
+                if acc.lists_above_bound() or acc.ints_above_bound() or any(t[0] == "o" for (t, n) in acc.out_of_constraint()):
                     return "C04-uper-field-above-bound"
             except (ValueError, IndexError):
                 pass
@@ -308,7 +308,7 @@ def model_layer(run, rng, tier, model):
                     metas.append({"case": c, "tn": c["tn"], "syn": syn, "kind": kind, "data": data, "orig": b})
         jobs.append((m, lines, metas))
     tlog("model: %d mutant lines generated" % sum(len(j[1]) for j in jobs))
-    cres = run_many([(m["exe"], lines) for m, lines, metas in jobs])
+    cres = run_many([(m["exe"], lines) for m, lines, metas in jobs], timeout=(150 if tier == "quick" else 1500))
     tlog("model: C side done, %d process deaths" % sum(len(e) for o, e in cres))
     rerun_reencode_crashes(jobs, cres)
     allres = []
@@ -515,7 +515,7 @@ def wide_layer(run, rng, tier):
             lines, metas = [lines[i] for i in keep], [metas[i] for i in keep]
         jobs.append((m, lines, metas))
     tlog("wide: %d mutant lines generated" % sum(len(j[1]) for j in jobs))
-    cres = run_many([(m["exe"], lines) for m, lines, metas in jobs], per_chunk=40)
+    cres = run_many([(m["exe"], lines) for m, lines, metas in jobs], per_chunk=40, timeout=(150 if tier == "quick" else 1500))
     tlog("wide: C side done, %d process deaths" % sum(len(e) for o, e in cres))
     rerun_reencode_crashes(jobs, cres)
     for (m, lines, metas), (outs, errs) in zip(jobs, cres):
